@@ -187,7 +187,7 @@ def run_check(prop_id: str, tier: str, seed: int, jobs: int | None = None) -> in
     t0 = time.time()
     _quiet_torch()
     mod = importlib.import_module(f"mc.props.{prop_id}")
-    jobs = jobs or int(os.environ.get("VERIF_JOBS", "0")) or min(8, os.cpu_count() or 1)
+    jobs = jobs or int(os.environ.get("VERIF_JOBS", "0")) or min(14, os.cpu_count() or 1)
     cases_iter: Iterable[dict] = mod.cases(tier, seed)
     budget_s = float(os.environ.get("VERIF_BUDGET_S", "0") or 0)
 
